@@ -27,10 +27,21 @@ def rules_block():
 def findings_block():
     d = json.load(open(root + '/known_findings.json'))
     rows = ['| id | property | rule @ construct | status | commit | what fails |', '|---|---|---|---|---|---|']
+    # entries of one finding that differ only in the construct (F34: one per builder) are one row
+    merged = []
     for f in d['findings']:
         what = f['what'].replace('|', '\\|')
         what = re.sub(r'^fixed: property=\S+ \S+ ', '', what)
-        rows.append(f"| {f['id']} | {f['property']} | `{f['rule']}@{f['construct']}` | {f['status']} | {f.get('commit') or '—'} | {what} |")
+        key = (f['id'], f['rule'], f['status'], f.get('commit'))
+        if merged and merged[-1]['key'] == key and merged[-1]['n'] >= 1 and f['id'] in ('F34',):
+            merged[-1]['n'] += 1
+            merged[-1]['constructs'].append(f['construct'])
+            continue
+        merged.append({'key': key, 'f': f, 'what': what, 'n': 1, 'constructs': [f['construct']]})
+    for m in merged:
+        f = m['f']
+        cons = f['construct'] if m['n'] == 1 else f"{m['constructs'][0]} … ({m['n']} constructs: one per builder)"
+        rows.append(f"| {f['id']} | {f['property']} | `{f['rule']}@{cons}` | {f['status']} | {f.get('commit') or '—'} | {m['what']} |")
     return '\n'.join(rows)
 
 def seeds_block():
